@@ -190,20 +190,28 @@ Proof.
 Qed.
 
 (* ------------------------------------------------------------------ the sweep *)
-(* height of the tree over n unit-weight leaves is at most ceil(log2 n) *)
-Definition canon_ok (n : N) : bool :=
-  match rmerge 400 (n - 1) n [] with
-  | Some h => h <=? N.log2_up n
-  | None => false
-  end.
+(* height of the tree over n unit-weight leaves is at most ceil(log2 n).  The fuel stays a variable
+   in every lemma so that the kernel never unfolds `rmerge` on a symbolic n. *)
+Definition check_h (n : N) (o : option N) : bool :=
+  match o with Some h => h <=? N.log2_up n | None => false end.
+Definition canon_ok (fuel : nat) (n : N) : bool := check_h n (rmerge fuel (n - 1) n []).
 
-Lemma canon_sweep : all_between canon_ok 2 16382 = true.
+Lemma check_h_spec n o : check_h n o = true -> exists h, o = Some h /\ h <= N.log2_up n.
+Proof. destruct o as [h|]; cbn [check_h]; [|discriminate]. intros H. exists h. split; [reflexivity|apply N.leb_le; exact H]. Qed.
+
+Lemma canon_ok_sound fuel n : canon_ok fuel n = true ->
+  exists h, hmerge (N.to_nat (n - 1)) (cA (N.to_nat n)) [] = Some h /\ h <= N.log2_up n.
+Proof.
+  unfold canon_ok. intros H. apply check_h_spec in H. destruct H as [h [E Hh]].
+  exists h. split; [exact (rmerge_sound fuel (n - 1) n [] h E)|exact Hh].
+Qed.
+
+Lemma canon_sweep : all_between (canon_ok 400) 2 16382 = true.
 Proof. vm_compute. reflexivity. Qed.
 
 Lemma canon_hmerge n : 2 <= n -> n <= 16383 ->
   exists h, hmerge (N.to_nat (n - 1)) (cA (N.to_nat n)) [] = Some h /\ h <= N.log2_up n.
 Proof.
-  intros H2 Hmax. pose proof (all_between_spec _ _ _ canon_sweep n H2 ltac:(lia)) as H.
-  unfold canon_ok in H. destruct (rmerge 400 (n - 1) n []) as [h|] eqn:E; [|discriminate].
-  exists h. split; [apply (rmerge_sound _ _ _ _ _ E)|apply N.leb_le; exact H].
+  intros H2 Hmax. apply (canon_ok_sound 400 n).
+  exact (all_between_spec (canon_ok 400) 2 16382 canon_sweep n H2 ltac:(lia)).
 Qed.
